@@ -33,6 +33,9 @@ type Opt struct {
 	BackendShards  int    `json:"backend_shards,omitempty"`
 	TCPConfigMap   bool   `json:"tcp_configmap,omitempty"` // --tcp-services-configmap=ingress-controller/tcp-services
 	NoWatchNoClass bool   `json:"no_watch_without_class,omitempty"`
+	// Socket: socket mode — the caller serves the admin / master sockets (lib/fakehaproxy),
+	// so dynamic updates are really applied (pkg/haproxy/dynupdate.go) and reloads are loaded.
+	Socket bool `json:"socket_mode,omitempty"`
 }
 
 // TCPConfigMapName is the name used when Opt.TCPConfigMap.
@@ -224,6 +227,13 @@ var bundles = []func(rng *rand.Rand, a map[string]string){
 		}
 	},
 	func(rng *rand.Rand, a map[string]string) { a[ann+"assign-backend-server-id"] = "true" },
+	func(rng *rand.Rand, a map[string]string) { // cookie affinity: names of the running servers matter
+		a[ann+"affinity"] = "cookie"
+		a[ann+"session-cookie-preserve"] = pick(rng, []string{"true", "true", "false"})
+		if rng.Intn(2) == 0 {
+			a[ann+"session-cookie-value-strategy"] = pick(rng, []string{"pod-uid", "server-name"})
+		}
+	},
 	func(rng *rand.Rand, a map[string]string) { // per-path ACL features
 		for i, n := 0, 1+rng.Intn(2); i < n; i++ {
 			kv := pick(rng, [][2]string{{"whitelist-source-range", "10.0.0.0/8"}, {"cors-enable", "true"}, {"hsts", "false"},
